@@ -595,12 +595,43 @@ func aliasSession(r *rand.Rand, k int) Session {
 	return s
 }
 
+// flipSession: the caller assigns Driver.ForceSelfClosingTags / Driver.ExcludeHeader on the open
+// driver between requests, in both directions, several times; each request is expected to follow
+// the values at the time of its call.
+func flipSession(r *rand.Rand, k int) Session {
+	s := newSession(r, "flip", []string{"1.0", "1.1"}[k%2], (k/2)%2 == 0, (k/4)%2 == 0)
+	g := &xg{r: r, mb: r.Intn(3) != 0, eom: s.Version == "1.1"}
+	n := 10 + r.Intn(21)
+	force, header := s.Force, s.Header
+	for i := 0; i < n; i++ {
+		q := genReq(r, g, shapes[r.Intn(len(shapes))])
+		if q.Arg.N > 0 {
+			q.Arg = lit("<list><e></e><f x=\"1\"> </f></list>")
+		}
+		if i > 0 && r.Intn(3) == 0 {
+			force = !force
+			v := force
+			q.SetForce = &v
+		} else if i > 0 && r.Intn(8) == 0 {
+			v := force // assignment of the value it already has
+			q.SetForce = &v
+		}
+		if i > 0 && r.Intn(3) == 0 {
+			header = !header
+			v := header
+			q.SetHeader = &v
+		}
+		s.Reqs = append(s.Reqs, q)
+	}
+	return s
+}
+
 // Gen is the case list: a pure function of (tier, seed).
 func Gen(tier string, seed int64) []mon.Case {
 	r := rand.New(rand.NewSource(seed*104729 + 3))
-	nGrid, nSweep, nRandom, nBig, nNoAns, nCaps, nStall, nAlias, nLog := 4, 2, 150, 8, 24, 1, 2, 24, 1
+	nGrid, nSweep, nRandom, nBig, nNoAns, nCaps, nStall, nAlias, nLog, nFlip := 4, 2, 150, 8, 24, 1, 2, 24, 1, 24
 	if tier == "thorough" {
-		nGrid, nSweep, nRandom, nBig, nNoAns, nCaps, nStall, nAlias, nLog = 40, 12, 9000, 128, 400, 6, 12, 400, 10
+		nGrid, nSweep, nRandom, nBig, nNoAns, nCaps, nStall, nAlias, nLog, nFlip = 40, 12, 9000, 128, 400, 6, 12, 400, 10, 400
 	}
 	var ss []Session
 	for round := 0; round < nGrid; round++ {
@@ -653,6 +684,9 @@ func Gen(tier string, seed int64) []mon.Case {
 				ss = append(ss, logSession(r, lv, v))
 			}
 		}
+	}
+	for i := 0; i < nFlip; i++ {
+		ss = append(ss, flipSession(r, i))
 	}
 	for i := 0; i < nAlias; i++ {
 		ss = append(ss, aliasSession(r, i))
